@@ -467,6 +467,16 @@ fn sanitize(s: &str) -> String {
 /// Replay one saved case through an engine.
 pub fn replay_case<E: Engine>(eng: &E, case: &Value) -> Outcome {
     let c: E::Case = serde_json::from_value(case.clone()).expect("replay file: case does not match engine");
+    // debugging aid: VERIF_REPLAY_REPEAT=n runs the case n times and prints the resident set (memory growth per case)
+    if let Some(n) = std::env::var("VERIF_REPLAY_REPEAT").ok().and_then(|s| s.parse::<u32>().ok()) {
+        for k in 0..n {
+            let _ = eng.run_contained(&c, "");
+            if k % 5 == 0 {
+                let rss: u64 = std::fs::read_to_string("/proc/self/statm").ok().and_then(|s| s.split_whitespace().nth(1).and_then(|x| x.parse().ok())).unwrap_or(0);
+                eprintln!("repeat {}: rss {} MiB", k, rss * 4096 >> 20);
+            }
+        }
+    }
     eng.run_contained(&c, "")
 }
 
